@@ -6,7 +6,7 @@ for d in seeded/*/; do
   id=$(basename $d)
   prop=$(python3 -c "import json;print(json.load(open('$d/meta.json'))['property'])")
   out=$(python3 tools/seedtest.py $d/patch.diff $prop 2>&1)
-  echo "$id $(echo "$out" | python3 -c "
+  echo "$id $(printf "%s" "$out" | python3 -c "
 import json,sys
 try:
     o=json.load(sys.stdin); c=o['checks'].get('$prop',{})
